@@ -62,6 +62,11 @@ def parseOutcome (s : String) : Option Outcome :=
   | ['R'] => some .reject
   | ['B', '0'] => some (.banner false)
   | ['B', '1'] => some (.banner true)
+  -- other shapes of BannerError with a message (nil Err / wrapping a PartialSuccessError / itself wrapped):
+  -- errors.As finds the banner, the type assertion to *PartialSuccessError does not succeed
+  | ['B', '2'] => some (.banner true)
+  | ['B', 'P'] => some (.banner true)
+  | ['B', 'W'] => some (.banner true)
   | 'P' :: rest =>
     match (String.ofList rest).splitOn "." with
     | [m, p] => do
@@ -169,9 +174,22 @@ def showEv : Ev → String
   | .cbGssAllow g u _ => s!"cb.gss({g},{u})"
   | .log m r => s!"log({m},{showLog r})"
 
-def showFinal : Final → String
+/-- ServerAuthError.Errors: one entry per logged request plus the disconnect message; how many of
+    them are ErrNoAuth (a `none` request that was refused without consulting NoClientAuthCallback) -/
+def authErrCounts (evs : List Ev) : Nat × Nat :=
+  let step (acc : Nat × Nat × Bool) (e : Ev) : Nat × Nat × Bool :=
+    match e with
+    | .cbNone _ _ => (acc.1, acc.2.1, true)
+    | .log m res =>
+      (acc.1 + 1, (if m == "none" && res == .fail && !acc.2.2 then acc.2.1 + 1 else acc.2.1), false)
+    | .sendDisconnect => (acc.1 + 1, acc.2.1, false)
+    | _ => acc
+  let r := evs.foldl step (0, 0, false)
+  (r.1, r.2.1)
+
+def showFinal (evs : List Ev) : Final → String
   | .ok p => s!"ok:{p}"
-  | .authErr => "autherr"
+  | .authErr => s!"autherr:{(authErrCounts evs).1}:{(authErrCounts evs).2}"
   | .err => "err"
 
 def parseCfg (o : Op) : Option Cfg := do
@@ -214,7 +232,12 @@ def handle (line : String) : String :=
   match parseCfg o, (o.get? "reqs").bind parseReads with
   | some cfg, some reads =>
     let (evs, f) := run cfg reads
-    s!"res={showFinal f} ev={if evs.isEmpty then "-" else " ".intercalate (evs.map showEv)}"
+    -- PreAuthConnCallback runs once before the loop: n = nil, c = set, b = set and calls SendAuthBanner
+    match (o.get? "pre").getD "n" with
+    | "n" => s!"res={showFinal evs f} ev={if evs.isEmpty then "-" else " ".intercalate (evs.map showEv)}"
+    | "c" => s!"res={showFinal evs f} ev={" ".intercalate ("cb.pre" :: evs.map showEv)}"
+    | "b" => s!"res={showFinal evs f} ev={" ".intercalate ("cb.pre" :: "B" :: evs.map showEv)}"
+    | _ => "bad-op"
   | _, _ => "bad-op"
 
 end XC.C32
